@@ -88,6 +88,7 @@ type Stage struct {
 	Gate  bool   `json:"gate,omitempty"`
 	Inner *Stage `json:"inner,omitempty"` // fork
 	Xs    []int  `json:"xs,omitempty"`    // seq
+	Slow  int    `json:"-"`               // free-running runs only: the user function takes this many microseconds
 
 	exx chan error // stderr: the error channel the driver feeds instead of input 0
 }
@@ -169,12 +170,16 @@ func (c *calls) parkedNow() []int {
 
 // an output as the driver sees it: non-blocking receive
 type output struct {
-	try func() (v int, closed bool, got bool)
-	cap int
+	try  func() (v int, closed bool, got bool)
+	wait func() (v int, closed bool) // blocking receive: the consumer is parked in `<-ch` when the stage gets to its send
+	cap  int
 }
 
 func outInt(ch <-chan int) output {
-	return output{cap: cap(ch), try: func() (int, bool, bool) {
+	return output{cap: cap(ch), wait: func() (int, bool) {
+		v, ok := <-ch
+		return v, !ok
+	}, try: func() (int, bool, bool) {
 		select {
 		case v, ok := <-ch:
 			if !ok {
@@ -188,7 +193,16 @@ func outInt(ch <-chan int) output {
 }
 
 func outErr(ch <-chan error) output {
-	return output{cap: cap(ch), try: func() (int, bool, bool) {
+	return output{cap: cap(ch), wait: func() (int, bool) {
+		e, ok := <-ch
+		if !ok {
+			return 0, true
+		}
+		if ev, isv := e.(errVal); isv {
+			return int(ev), false
+		}
+		return -1, false
+	}, try: func() (int, bool, bool) {
 		select {
 		case e, ok := <-ch:
 			if !ok {
@@ -221,6 +235,9 @@ func outUnit(ch <-chan struct{}) output {
 func (s *Stage) eitherE(c *calls) func(int) (int, error) {
 	return func(x int) (int, error) {
 		c.enter(x)
+		if s.Slow > 0 {
+			time.Sleep(time.Duration(s.Slow) * time.Microsecond)
+		}
 		if s.Fail != nil && s.Fail.fails(x) {
 			return 0, errVal(1000 + x)
 		}
